@@ -59,4 +59,22 @@ def parseFixed4 (s : List Nat) : Option (Bool × Nat) :=
     else none
   | _ => none
 
+/-! ### two decimals (`'{0:.2f}'.format(x)`, the scorer block) -/
+
+def frac2 (r : Nat) : List Nat := [r / 10 % 10 + 48, r % 10 + 48]
+
+def renderFixed2 (neg : Bool) (k : Nat) : List Nat :=
+  (if neg then [45] else []) ++ renderNat (k / 100) ++ 46 :: frac2 (k % 100)
+
+def parseFixed2 (s : List Nat) : Option (Bool × Nat) :=
+  let p := signBody s
+  match p.2.dropWhile (· != 46) with
+  | 46 :: fr =>
+    if fr.length == 2 then
+      match parseNat (p.2.takeWhile (· != 46)), parseNat fr with
+      | some a, some b => some (p.1, a * 100 + b)
+      | _, _ => none
+    else none
+  | _ => none
+
 end Verif.Num
